@@ -13,7 +13,8 @@ fn current_duration_since_epoch() -> Result<Duration, Duration> {
 pub(crate) fn current_unix_time() -> i64 {
     match current_duration_since_epoch() {
         Ok(duration) => 0i64.saturating_add_unsigned(duration.as_secs()),
-        Err(duration) => 0i64.saturating_sub_unsigned(duration.as_secs()),
+        // Before the epoch, a partial second belongs to the earlier Unix second (floor, consistent with `current_total_nanoseconds`)
+        Err(duration) => 0i64.saturating_sub_unsigned(duration.as_secs()).saturating_sub((duration.subsec_nanos() != 0) as i64),
     }
 }
 
